@@ -66,8 +66,14 @@ def get_mask_with_key_joins(data, key_joins, subset_state, view=None):
             key_right_all = []
 
             for cid1_i, cid2_i in zip(cid1, cid2):
-                key_left_all.append(data.get_data(cid1_i, view=view).ravel())
-                key_right_all.append(other.get_data(cid2_i, view=mask_right).ravel())
+                key_left = data.get_data(cid1_i, view=view).ravel()
+                key_right = other.get_data(cid2_i, view=mask_right).ravel()
+                # The combined keys are compared via their bytes, so the two
+                # sides have to be stored with the same dtype for equal
+                # values to match (e.g. int32 and int64, or <U2 and <U4).
+                dtype = np.promote_types(key_left.dtype, key_right.dtype)
+                key_left_all.append(np.asarray(key_left, dtype=dtype))
+                key_right_all.append(np.asarray(key_right, dtype=dtype))
 
             key_left_all = concatenate_arrays(*key_left_all)
             key_right_all = concatenate_arrays(*key_right_all)
